@@ -92,6 +92,32 @@ struct AcqOut {
 	outcome: String,
 }
 
+pub fn run_acq_case(s: &Spec, assign: &[u8], flavour: Flavour, write: bool, keep_trace: bool) -> seq::SeqOut<(bool, u32)> {
+	seq::case(Policy::RP, keep_trace, |w, ctl| {
+		let t = w.build(s).expect("probed");
+		ctl.init(w);
+		apply_assignment(ctl, &t.leaves, assign);
+		let before = ctl.table_fp();
+		let key = ThreadKey::get().expect("clean thread");
+		let (key, ok) = interp::acquire(&t, write, flavour, Body::TOUCH, key, 1);
+		drop(key);
+		let after = ctl.table_fp();
+		// exact try outcome (C13) in this quiescent state
+		if flavour.is_try() {
+			let expect = if write { assign.iter().all(|v| *v == 0) } else { assign.iter().all(|v| *v != 2) };
+			if ok != expect {
+				rt::violation("C13", format!("try-outcome|{}|expected-{}", rt::what_key(&interp::what(&t, flavour.api(write))), if expect { "success" } else { "failure" }), format!("`{}` returned {} with leaf states {:?} over leaves {:?}", interp::what(&t, flavour.api(write)), if ok { "success" } else { "failure" }, assign, t.leaves));
+			}
+			if after != before {
+				rt::violation("C13", format!("try-not-undone|{}", rt::what_key(&interp::what(&t, flavour.api(write)))), format!("after `{}` ({}) and dropping everything the hold state differs: {}", interp::what(&t, flavour.api(write)), if ok { "success" } else { "failure" }, ctl.table_string()));
+			}
+		} else if !ok {
+			rt::violation("C04", format!("blocking-did-not-acquire|{}", rt::what_key(&interp::what(&t, flavour.api(write)))), "blocking acquisition returned without success".into());
+		}
+		(ok, ctl.env_steps())
+	})
+}
+
 /// The acquisition sweep behind C04 (all flavours) and C13 (try flavours).
 pub fn sweep_acquire(rep: &mut Report, specs: &[Spec], flavours: &[Flavour], prop: &str) {
 	let infos = probe_specs(specs);
@@ -113,30 +139,7 @@ pub fn sweep_acquire(rep: &mut Report, specs: &[Spec], flavours: &[Flavour], pro
 		}
 	}
 	let outs = par_cases(&cases, |_, c| {
-		let s = &specs[c.spec];
-		let o = seq::case(Policy::RP, false, |w, ctl| {
-			let t = w.build(s).expect("probed");
-			ctl.init(w);
-			apply_assignment(ctl, &t.leaves, &c.assign);
-			let before = ctl.table_fp();
-			let key = ThreadKey::get().expect("clean thread");
-			let (key, ok) = interp::acquire(&t, c.write, c.flavour, Body::TOUCH, key, 1);
-			drop(key);
-			let after = ctl.table_fp();
-			// exact try outcome (C13) in this quiescent state
-			if c.flavour.is_try() {
-				let expect = if c.write { c.assign.iter().all(|v| *v == 0) } else { c.assign.iter().all(|v| *v != 2) };
-				if ok != expect {
-					rt::violation("C13", format!("try-outcome|{}|expected-{}", rt::what_key(&interp::what(&t, c.flavour.api(c.write))), if expect { "success" } else { "failure" }), format!("`{}` returned {} with leaf states {:?} over leaves {:?}", interp::what(&t, c.flavour.api(c.write)), if ok { "success" } else { "failure" }, c.assign, t.leaves));
-				}
-				if after != before {
-					rt::violation("C13", format!("try-not-undone|{}", rt::what_key(&interp::what(&t, c.flavour.api(c.write)))), format!("after `{}` ({}) and dropping everything the hold state differs: {}", interp::what(&t, c.flavour.api(c.write)), if ok { "success" } else { "failure" }, ctl.table_string()));
-				}
-			} else if !ok {
-				rt::violation("C04", format!("blocking-did-not-acquire|{}", rt::what_key(&interp::what(&t, c.flavour.api(c.write)))), "blocking acquisition returned without success".into());
-			}
-			(ok, ctl.env_steps())
-		});
+		let o = run_acq_case(&specs[c.spec], &c.assign, c.flavour, c.write, false);
 		let (ok, env) = o.value.unwrap_or((false, 0));
 		let mut violations = o.violations;
 		if o.outcome != "ok" {
@@ -175,7 +178,7 @@ pub fn sweep_acquire(rep: &mut Report, specs: &[Spec], flavours: &[Flavour], pro
 pub fn check_c13(tier: &str) -> ! {
 	let mut rep = Report::new("C13", tier, "exploration");
 	seq_assumptions(&mut rep);
-	let specs = shapes::catalogue(if tier == "thorough" { 5 } else { 4 });
+	let specs = shapes::catalogue(if tier == "thorough" { 6 } else { 5 });
 	let tries: Vec<Flavour> = FLAVOURS.iter().copied().filter(|f| f.is_try()).collect();
 	sweep_acquire(&mut rep, &specs, &tries, "C13");
 	rep.set("rule", "every catalogue shape (all kinds, sizes 0..max, every arrangement, depth<=2 nestings, Poisonable in/outside, native containers) x every assignment of {free, read-held, write-held by another thread} to its leaves x {try_lock, try_read, scoped_try_* with lent and owned key}; non-trivial = the try failed (a rollback or early return ran)");
@@ -185,7 +188,7 @@ pub fn check_c13(tier: &str) -> ! {
 pub fn check_c04(tier: &str) -> ! {
 	let mut rep = Report::new("C04", tier, "exploration");
 	seq_assumptions(&mut rep);
-	let specs = shapes::catalogue(if tier == "thorough" { 5 } else { 4 });
+	let specs = shapes::catalogue(if tier == "thorough" { 6 } else { 5 });
 	sweep_acquire(&mut rep, &specs, &FLAVOURS, "C04");
 	// the concurrent invariant: same oracles at every acquisition return with real concurrent holders
 	let mut crep = Report::new("C04", tier, "model_checking");
@@ -212,7 +215,7 @@ fn has_dup(units: &[u32]) -> bool {
 
 pub fn c07_inputs(thorough: bool) -> Vec<Spec> {
 	let mut out = vec![];
-	let maxlen = if thorough { 7 } else { 6 };
+	let maxlen = if thorough { 8 } else { 7 };
 	// every member list of length 0..maxlen over 5 rwlock leaves
 	let mut lists: Vec<Vec<usize>> = vec![vec![]];
 	let mut frontier = lists.clone();
@@ -619,6 +622,10 @@ pub enum Holder {
 	SelfScoped,
 	/// a guard of the calling thread leaked with mem::forget
 	SelfLeaked,
+	/// the calling thread holds the target itself through its own live guard (all leaves)
+	OwnGuard,
+	/// the calling thread is inside a scoped closure of the target itself
+	OwnScoped,
 }
 
 #[derive(Clone, Copy, Debug, PartialEq, Eq, PartialOrd, Ord, serde::Serialize, serde::Deserialize)]
@@ -676,7 +683,7 @@ fn run_nonacq(s: &Spec, t: Option<&Target<'_>>, w: &World<'_>, op: NonAcq) {
 pub fn check_c17(tier: &str) -> ! {
 	let mut rep = Report::new("C17", tier, "exploration");
 	seq_assumptions(&mut rep);
-	let specs = shapes::catalogue(if tier == "thorough" { 4 } else { 3 });
+	let specs = shapes::catalogue(if tier == "thorough" { 5 } else { 4 });
 	let infos = probe_specs(&specs);
 	let mut cases = vec![];
 	for (si, info) in infos.iter().enumerate() {
@@ -697,6 +704,12 @@ pub fn check_c17(tier: &str) -> ! {
 						continue; // a queued writer needs a read-held lock to wait on
 					}
 					cases.push(NaCase { spec: si, assign: a.clone(), holder: Holder::Foreign, op, policy, queued_writer: qw });
+				}
+				// the caller holds the target itself (every leaf) through the target's own guard / closure
+				if a.iter().all(|v| *v == 2) || (info.sharable && !a.is_empty() && a.iter().all(|v| *v == 1)) || a.is_empty() {
+					for h in [Holder::OwnGuard, Holder::OwnScoped] {
+						cases.push(NaCase { spec: si, assign: a.clone(), holder: h, op, policy: Policy::RP, queued_writer: false });
+					}
 				}
 				// held by the caller itself: the held leaves must be all-write or all-read (one guard)
 				let nonfree: Vec<u8> = a.iter().copied().filter(|v| *v != 0).collect();
@@ -744,6 +757,39 @@ pub fn check_c17(tier: &str) -> ! {
 					let n = ctl.disarm();
 					check(ctl, before);
 					n
+				}
+				Holder::OwnGuard | Holder::OwnScoped => {
+					let write = c.assign.iter().all(|v| *v == 2);
+					let key = ThreadKey::get().expect("clean");
+					if c.holder == Holder::OwnGuard {
+						let g = if write { t.coll.lock(key) } else { t.coll.read(key) };
+						let before = ctl.table_fp();
+						ctl.arm_counting();
+						run_nonacq(s, Some(&t), w, c.op);
+						rt::begin_call(CallKind::NonAcquiring, false, format!("{}::Debug(guard) #{}", t.shape, t.desc));
+						let d = g.debug();
+						rt::end_call();
+						assert!(!d.is_empty());
+						let n = ctl.disarm();
+						check(ctl, before);
+						drop(g);
+						n
+					} else {
+						let mut cnt = 0;
+						let mut f = |_v: &dyn crate::world::Visit| {
+							let before = ctl.table_fp();
+							ctl.arm_counting();
+							rt::set_call_kind(CallKind::Body);
+							run_nonacq(s, Some(&t), w, c.op);
+							cnt = ctl.disarm();
+							check(ctl, before);
+							rt::begin_call(CallKind::Release, false, "holder".into());
+						};
+						rt::begin_call(CallKind::Acquire, false, "holder".into());
+						t.coll.scoped(write, false, crate::world::KeyArg::Owned(key), &mut f);
+						rt::end_call();
+						cnt
+					}
 				}
 				_ => {
 					// the caller itself holds the non-free leaves through a holder collection (arena leaves only)
